@@ -1033,6 +1033,49 @@ class ModuleNormaliser:
         self.log.append(f"{q}: locals/parameters alpha-renamed to the reference names {rename}")
 
 
+def split_parallel_assignments(tree):
+    """Canonical spelling, applied to every module: `a, b = x, y` becomes `a = x; b = y` when no later value reads an
+    earlier target (so it is not a swap and the order of evaluation is not observable through the targets)."""
+    count = 0
+
+    def reads(value, target):
+        t = " ".join(ast.unparse(_loadify(target)).split())
+        for n in ast.walk(value):
+            if isinstance(n, (ast.Name, ast.Attribute, ast.Subscript)):
+                k = " ".join(ast.unparse(n).split())
+                if k == t or k.startswith(t + ".") or k.startswith(t + "[") or t.startswith(k + ".") or t.startswith(k + "["):
+                    return True
+        return False
+
+    def process(stmts):
+        nonlocal count
+        out = []
+        for st in stmts:
+            if isinstance(st, ast.Assign) and len(st.targets) == 1 and isinstance(st.targets[0], (ast.Tuple, ast.List)) and isinstance(st.value, (ast.Tuple, ast.List)) \
+                    and len(st.targets[0].elts) == len(st.value.elts) and not any(isinstance(e, ast.Starred) for e in list(st.targets[0].elts) + list(st.value.elts)) \
+                    and all(isinstance(t, (ast.Name, ast.Attribute, ast.Subscript)) for t in st.targets[0].elts):
+                ts, vs = st.targets[0].elts, st.value.elts
+                safe = all(not reads(vs[j], ts[i]) for j in range(len(vs)) for i in range(len(ts)) if i != j) and all(is_pure(_loadify(t)) for t in ts)
+                if safe:
+                    for t, v in zip(ts, vs):
+                        a = ast.Assign(targets=[t], value=v)
+                        ast.copy_location(a, st)
+                        ast.fix_missing_locations(a)
+                        out.append(a)
+                    count += 1
+                    continue
+            for field in ("body", "orelse", "finalbody"):
+                sub = getattr(st, field, None)
+                if isinstance(sub, list) and sub and isinstance(sub[0], ast.stmt):
+                    setattr(st, field, process(sub))
+            for h in getattr(st, "handlers", []) or []:
+                h.body = process(h.body)
+            out.append(st)
+        return out
+    tree.body = process(tree.body)
+    return count
+
+
 def normalise_module(tree, inv):
     n = ModuleNormaliser(tree, inv)
     try:
